@@ -404,17 +404,28 @@ class _Factory:
                 raise UnknownIdiom('%s does not return its nested encoder' % self.f.qual)
         self.env = env
         self.ev = ev
-        # the char table and the alphabet it was built from
-        tables = [(k, v) for k, v in env.items() if isinstance(v, _Getitem)]
-        self.table_var, g = single(tables, 'char-encoder table in the closure', self.f.qual)
-        self.table = g.table
-        self.allowed = None
+        # the char tables and the alphabets they were built from
         ce = p.func(URI + '._create_char_encoder')
-        for stmt, val in _assignments(self.f.node, self.table_var):
-            if isinstance(val, ast.Call) and p.resolve_callable(self.f, val.func) is ce and len(val.args) == 1 and not val.keywords:
-                self.allowed = ev.expr(val.args[0], env)
-        if not isinstance(self.allowed, str):
-            raise UnknownIdiom('%s: alphabet passed to _create_char_encoder' % self.f.qual)
+        self.tables: Dict[str, Tuple[dict, str]] = {}
+        for k, v in env.items():
+            if not isinstance(v, _Getitem):
+                continue
+            alpha = None
+            for stmt, val in _assignments(self.f.node, k):
+                if isinstance(val, ast.Call) and p.resolve_callable(self.f, val.func) is ce and len(val.args) == 1 and not val.keywords:
+                    alpha = ev.expr(val.args[0], env)
+            if not isinstance(alpha, str):
+                raise UnknownIdiom('%s: alphabet passed to _create_char_encoder for %s' % (self.f.qual, k))
+            self.tables[k] = (v.table, alpha)
+        if not self.tables:
+            raise AnchorError('%s: no char-encoder table in the closure' % self.f.qual)
+        # the table of the configuration: the most restrictive one.  Whatever another table lets through beyond it
+        # reaches the output verbatim and is judged like a verbatim part on the path where that table is used (R1).
+        least = [k for k, (_t, a) in self.tables.items() if all(set(a) <= set(a2) for (_t2, a2) in self.tables.values())]
+        if not least:
+            raise UnknownIdiom('%s: the alphabets of the char-encoder tables %s are not nested' % (self.f.qual, sorted(self.tables)))
+        self.table_var = sorted(least)[0]
+        self.table, self.allowed = self.tables[self.table_var]
 
 
 def _factories(run):
@@ -598,11 +609,14 @@ def _derived_locals(fnode, seeds: Set[str]) -> Set[str]:
     return derived
 
 
-def _return_parts(enc: Func, up: str, table_var: str, v) -> List[tuple]:
+def _return_parts(enc: Func, up: str, table_vars, v) -> List[tuple]:
     """The value a nested encoder returns, as a concatenation of
     ('whole', node)  the input itself,
     ('raw', node)    a slice up[lo:hi] of the input, verbatim,
-    ('enc', bytes expression, node)   ''.join(map(TABLE, BYTES)) / ''.join(TABLE(b) for b in BYTES)."""
+    ('enc', bytes expression, node, TABLE)   ''.join(map(TABLE, BYTES)) / ''.join(TABLE(b) for b in BYTES)
+    where TABLE is one of the closure's char tables `table_vars`."""
+    if isinstance(table_vars, str):
+        table_vars = (table_vars,)
     out: List[tuple] = []
 
     def add(e, depth):
@@ -636,9 +650,9 @@ def _return_parts(enc: Func, up: str, table_var: str, v) -> List[tuple]:
                 and isinstance(a.elt, ast.Call) and len(a.elt.args) == 1 and isinstance(a.elt.args[0], ast.Name) \
                 and isinstance(a.generators[0].target, ast.Name) and a.elt.args[0].id == a.generators[0].target.id:
             fn, src = a.elt.func, a.generators[0].iter
-        if not (isinstance(fn, ast.Name) and fn.id == table_var):
+        if not (isinstance(fn, ast.Name) and fn.id in table_vars):
             raise UnknownIdiom('%s: encoded return %s does not map the char table' % (enc.qual, short(v, 80)))
-        out.append(('enc', _expand(enc, src), e))
+        out.append(('enc', _expand(enc, src), e, fn.id))
 
     if v is None:
         raise UnknownIdiom('%s: bare return' % enc.qual)
@@ -886,7 +900,7 @@ def _r1_verbatim(run, fs):
             if n.id not in paths.state:
                 continue    # not reachable under this configuration
             chars, defs, acc = paths.state[n.id]
-            parts = _return_parts(enc, up, fa.table_var, n.ast.value)
+            parts = _return_parts(enc, up, tuple(fa.tables), n.ast.value)
             kinds = [k[0] for k in parts]
             if kinds == ['whole']:
                 n_pass += 1
@@ -1018,7 +1032,7 @@ def r2_escape_shape(run):
         v = r.value
         if isinstance(v, ast.Name) and v.id == up:
             continue
-        for part in _return_parts(enc, up, fa.table_var, v):
+        for part in _return_parts(enc, up, tuple(fa.tables), v):
             if part[0] != 'enc':
                 continue    # verbatim parts are R1's business
             n_enc += 1
@@ -1412,7 +1426,8 @@ def r4_decoder_paths(run):
                 and all(isinstance(a, ast.Constant) for a in c.args) and c.args[0].value == '+' and c.args[1].value == ' ')
 
     def is_split(c):
-        return (isinstance(c, ast.Call) and isinstance(c.func, ast.Attribute) and c.func.attr == 'split' and len(c.args) == 1
+        # the tokenising split, with or without a bound (the bound is decided below: _r4_unbounded_tokens)
+        return (isinstance(c, ast.Call) and isinstance(c.func, ast.Attribute) and c.func.attr in ('split', 'rsplit') and len(c.args) >= 1
                 and isinstance(c.args[0], ast.Constant) and c.args[0].value in (b'%', '%'))
 
     rep_nodes = [n for n in cfg.live_nodes() if any(is_replace(c) for c in n.calls())]
@@ -1512,11 +1527,18 @@ def r4_decoder_paths(run):
     if not (sp.kind == 'stmt' and isinstance(sp.ast, ast.Assign) and len(sp.ast.targets) == 1 and isinstance(sp.ast.targets[0], ast.Name)):
         raise UnknownIdiom('decode(): split result is not bound to a local')
     toks = sp.ast.targets[0].id
+    _r4_unbounded_tokens(run, dec, cfg, sp, call, toks)
     for n in cfg.live_nodes():
         if n.kind == 'stmt' and isinstance(n.ast, ast.Return) and n not in shortcut:
             v = n.ast.value
             if isinstance(v, ast.Call) and isinstance(v.func, ast.Attribute) and v.func.attr == 'decode':
                 continue  # inline path, checked above
+            if isinstance(v, ast.Call) and isinstance(v.func, ast.Name) and len(v.args) == 1 and not v.keywords \
+                    and _token_window(p, dec, v.args[0], toks) not in (None, 'all'):
+                run.fail(R4_ALL_TOKENS, dec, v, where='%s:%s' % (dec.file, n.lineno),
+                         witness=['only the tokens %s are handed to the joiner' % short(v.args[0], 60)],
+                         runtime_witness=R4_ALL_TOKENS_RW)
+                continue
             if not (isinstance(v, ast.Call) and isinstance(v.func, ast.Name) and len(v.args) == 1 and isinstance(v.args[0], ast.Name)
                     and v.args[0].id == toks and not v.keywords):
                 raise UnknownIdiom('decode(): return %s' % short(v, 80))
@@ -1526,6 +1548,82 @@ def r4_decoder_paths(run):
             for c in cands:
                 run.check(c in paths, 'decode() hands long inputs to a joiner with the same escape skeleton', dec, v,
                           where='%s:%s' % (dec.file, n.lineno), witness=['candidate %s' % c])
+
+
+R4_ALL_TOKENS = ("every '%' of the input starts a token that goes through the escape table: the tokenisation of the text has no "
+                 "bound on the number of tokens (no maxsplit, no truncation of the token list)")
+R4_ALL_TOKENS_RW = "decode('%41' * 2000) leaves the escapes after the bound undecoded: decode(encode_value(s)) != s for a long s"
+
+
+def _token_window(p, f: Func, e, toks: str) -> Optional[str]:
+    """e hands on the token list `toks`: 'all' (the name, a full copy toks[:] / toks[0:] / list(toks) / tuple(toks)),
+    'bounded' (a slice with an upper bound or a step, itertools.islice); None: e has another shape."""
+    if isinstance(e, ast.Name) and e.id == toks:
+        return 'all'
+    if isinstance(e, ast.Subscript) and isinstance(e.value, ast.Name) and e.value.id == toks and isinstance(e.slice, ast.Slice):
+        lo = p.fold(f.module, e.slice.lower, None, None) if e.slice.lower is not None else None
+        if e.slice.upper is None and e.slice.step is None:
+            return 'all' if lo in (None, 0) else None
+        hi = p.fold(f.module, e.slice.upper, None, None) if e.slice.upper is not None else None
+        st = p.fold(f.module, e.slice.step, None, None) if e.slice.step is not None else None
+        if lo in (None, 0) and (e.slice.upper is None or type(hi) is int and hi >= 0) and (e.slice.step is None or type(st) is int and st >= 1) \
+                and not (e.slice.upper is None and st == 1):
+            return 'bounded'
+        return None
+    if isinstance(e, ast.Call) and not e.keywords and e.args and isinstance(e.args[0], ast.Name) and e.args[0].id == toks:
+        q = p.resolve_expr(f.module, e.func, f)
+        if q in ('builtins.list', 'builtins.tuple') and len(e.args) == 1:
+            return 'all'
+        if q == 'itertools.islice' and len(e.args) >= 2:
+            return 'bounded'
+    return None
+
+
+def _r4_unbounded_tokens(run, dec: Func, cfg, sp, call: ast.Call, toks: str):
+    """R4 clause: the split that tokenises the text is unbounded, and the token
+    list reaches the loops whole.  `x.split(b'%', N)` leaves everything after
+    the N-th '%' in the last token, which the loops copy through undecoded
+    after its first escape.  Witness: decode('%41' * 2000) != 'A' * 2000."""
+    p = run.project
+    where = '%s:%s' % (dec.file, sp.lineno)
+    bound = None
+    extra = list(call.args[1:])
+    for k in call.keywords:
+        if k.arg == 'maxsplit':
+            extra.append(k.value)
+        elif k.arg != 'sep':
+            raise UnknownIdiom('decode(): arguments of %s' % short(call, 80))
+    if len(extra) > 1:
+        raise UnknownIdiom('decode(): arguments of %s' % short(call, 80))
+    if extra:
+        bound = p.fold(dec.module, extra[0], None, dec)
+        if isinstance(extra[0], ast.UnaryOp) and isinstance(extra[0].op, ast.USub) and isinstance(extra[0].operand, ast.Constant) \
+                and type(extra[0].operand.value) is int:
+            bound = -extra[0].operand.value
+        if bound is UNKNOWN or type(bound) is not int:
+            raise UnknownIdiom('decode(): the maxsplit argument of %s is not a constant' % short(call, 80))
+    run.check(bound is None or bound < 0, R4_ALL_TOKENS, dec, call, where=where,
+              witness=['maxsplit = %s' % bound] if bound is not None else None, runtime_witness=R4_ALL_TOKENS_RW)
+    # the token list is not cut down between the split and its consumers
+    for (stmt, val) in _assignments(dec.node, toks):
+        if stmt is sp.ast:
+            continue
+        w = _token_window(p, dec, val, toks) if val is not None else None
+        if w == 'bounded':
+            run.fail(R4_ALL_TOKENS, dec, stmt, where=dec.loc(stmt), witness=['the token list is truncated by %s' % short(stmt, 60)],
+                     runtime_witness=R4_ALL_TOKENS_RW)
+        elif w != 'all':
+            raise UnknownIdiom('decode(): the token list %s is also bound by %s' % (toks, short(stmt, 60)))
+    for n in walk_self(dec.node):
+        if isinstance(n, ast.Delete):
+            for t in n.targets:
+                if isinstance(t, ast.Subscript) and isinstance(t.value, ast.Name) and t.value.id == toks:
+                    lo = p.fold(dec.module, t.slice.lower, None, None) if isinstance(t.slice, ast.Slice) and t.slice.lower is not None else None
+                    if isinstance(t.slice, ast.Slice) and t.slice.upper is None and t.slice.step is None and type(lo) is int and lo >= 1:
+                        run.fail(R4_ALL_TOKENS, dec, n, where=dec.loc(n), witness=['the token list is truncated by %s' % short(n, 60)],
+                                 runtime_witness=R4_ALL_TOKENS_RW)
+                    else:
+                        raise UnknownIdiom('decode(): %s' % short(n, 60))
 
 
 def _expand_in(f: Func, e, stop: str):
